@@ -1,6 +1,6 @@
 (* Properties/C17.v — timepb arithmetic is exact and normalised; TsCompare is chronological. *)
 From Coq Require Import Lia.
-From CP Require Import Bytes TimePb TimePbProofs TimePbOverflow.
+From CP Require Import Bytes TimePb TimePbProofs TimePbOverflow GoFun GoFunProofs.
 Local Open Scope Z_scope.
 
 (* TsAdd denotes exactly t + d, normalised (hence a valid Timestamp whenever representable), never
@@ -42,3 +42,30 @@ Proof. unfold valid_ts, valid_dur, second. cbn. repeat split; try lia; try discr
 Example overflow_example :
   TsAdd {| secs := 9223372036854775807; nanos := 1000 |} {| secs := 1; nanos := 0 |} = Panic.
 Proof. vm_compute. reflexivity. Qed.
+
+(* ---- the Go source itself (support/timepb/cmp.go transcribed by the translator: GoFun.canon_timepb, re-derived and compared
+        on every run) computes the models above, for all int64 x int32 operands, panics included (task T12; proofs in
+        Proofs/GoFunProofs.v by symbolic execution of the interpreter GoFun.run_fun) ---- *)
+Theorem iszero_prog : iszero_prog_stmt.
+Proof. exact GoFunProofs.iszero_prog_correct. Qed.
+Theorem compare_prog : compare_prog_stmt.
+Proof. exact GoFunProofs.compare_prog_correct. Qed.
+Theorem compare_nil_prog : compare_nil_prog_stmt.
+Proof. exact GoFunProofs.compare_nil_prog_correct. Qed.
+Theorem durationisnegative_prog : durationisnegative_prog_stmt.
+Proof. exact GoFunProofs.durationisnegative_prog_correct. Qed.
+Theorem overflowpanic_prog : overflowpanic_prog_stmt.
+Proof. exact GoFunProofs.overflowpanic_prog_correct. Qed.
+Theorem add_prog : add_prog_stmt.
+Proof. exact GoFunProofs.add_prog_correct. Qed.
+Theorem add_nil_prog : add_nil_prog_stmt.
+Proof. exact GoFunProofs.add_nil_prog_correct. Qed.
+Theorem addstd_prog : addstd_prog_stmt.
+Proof. exact GoFunProofs.addstd_prog_correct. Qed.
+
+(* non-vacuity: the interpreted Go code on an addition with a nanos carry, and on one whose seconds overflow (panic) *)
+Example add_prog_example :
+  run_fun canon_timepb 0 3 "Add" [ts_ptr {| secs := 10; nanos := 999999999 |}; ts_ptr {| secs := 1; nanos := 2 |}]
+  = GOk [ts_ptr {| secs := 12; nanos := 1 |}] [ts_ptr {| secs := 10; nanos := 999999999 |}; ts_ptr {| secs := 1; nanos := 2 |}] /\
+  run_fun canon_timepb 0 3 "Add" [ts_ptr {| secs := 9223372036854775807; nanos := 1000 |}; ts_ptr {| secs := 1; nanos := 0 |}] = GPanic.
+Proof. split; vm_compute; reflexivity. Qed.
